@@ -241,7 +241,7 @@ class Run:
                 continue
             co = t.get_coro()
             name = getattr(co, "__qualname__", repr(co))
-            if name.startswith("run.<locals>.") or name.startswith("run_case.<locals>."):
+            if name.startswith("run.<locals>.") or name.startswith("run_case.<locals>.") or name.startswith("Run."):
                 continue  # simnet's / this module's own driver tasks
             tasks.append(name)
         pool = srv.available_data_ports
@@ -306,10 +306,12 @@ class Run:
                 else:
                     t.close()
         elif how == "close":
-            self.close_task = asyncio.ensure_future(self.srv.close())
+            async def closer():
+                await self.srv.close()
+                self.at_close = self.ledger()  # what is left at the very instant Server.close() returns
+
+            self.close_task = asyncio.ensure_future(closer())
             self.harness_tasks.add(self.close_task)
-            # what is left at the very instant Server.close() returns
-            self.close_task.add_done_callback(lambda _f: setattr(self, "at_close", self.ledger()))
         else:
             raise ValueError(how)
 
